@@ -32,7 +32,7 @@ def run(ck: Check):
     ck.rule(
         "Gaussian / shifted / ramp / tied / cancellation-prone real streams; delta in {0,1e-9,.005,.1,1}, alpha in {0,.5,.9,.9999,1}, lambda on a grid, min_num_instances 1..30; "
         "every step compared with the recurrence over the batch mean; shift invariance and lambda monotonicity checked on the implementation itself away from near ties "
-        "(|g - lambda| <= 1e-7*scale skipped); non-trivial = some step alarms and some does not"
+        "(|g - lambda| <= 1e-7*scale skipped); plus histories with a reset() whose second concept exceeds lambda_ inside the restarted warm-up; non-trivial = some step alarms and some does not"
     )
     cases, impl = [], []
     for det in DETS:
@@ -90,6 +90,41 @@ def run(ck: Check):
                 if c3[0] and not a[0]:
                     ck.violation(dict(clause="lambda-antitone", detector=det.name), dict(detector=det.name, config=cfg, lambda_raised=cfg3["lambda_"], stream=xs[: t + 1]))
                     break
+    # histories with a reset(): the recurrence, the running mean AND the warm-up restart at the reset;
+    # the post-reset concept starts with a jump so that the statistic exceeds lambda_ within the new warm-up
+    for det in DETS:
+        for _ in range(25 if not thorough else 200):
+            cfg = det.gen_cfg(rng)
+            cfg["min_num_instances"] = rng.choice([3, 5, 8, 12])
+            scale = rng.choice([1.0, 5.0])
+            cfg["lambda_"] = rng.choice([0.1, 0.5, 1.0]) * scale
+            n1 = cfg["min_num_instances"] + rng.choice([2, 10, 40])
+            seg1 = [rng.gauss(0, 0.1 * scale) for _ in range(n1 // 2)] + [rng.gauss(3 * scale, 0.1 * scale) for _ in range(n1 - n1 // 2)]
+            seg2 = [rng.gauss(0, 0.1 * scale) for _ in range(2)] + [rng.gauss(4 * scale, 0.1 * scale) for _ in range(cfg["min_num_instances"] + 6)]
+            ops = seg1 + ["R"] + seg2
+            out, exc, _ = run_impl(det, cfg, ops)
+            if exc is not None:
+                ck.violation(dict(clause="raises", detector=det.name), dict(detector=det.name, config=cfg, ops=ops[: len(out) + 1], error=repr(exc)))
+                continue
+            o2 = out[len(seg1) + 1 :]
+            g2 = spec(det, cfg, seg2)
+            ck.case(dict(detector=det.name, config=cfg, kind="reset-history", n=len(ops)), nontrivial=any(o[0] for o in o2), key=repr((det.name, cfg, ops)))
+            ck.count("reset_histories")
+            tol = 1e-7 * scale * 4
+            for t, (o, gt) in enumerate(zip(o2, g2)):
+                if abs(o[3][1] - gt) > tol * max(1.0, abs(gt)):
+                    ck.violation(dict(clause="recurrence", detector=det.name, after_reset=True), dict(what="statistic after reset() differs from the recurrence restarted at the reset", detector=det.name, config=cfg, ops=ops[: len(seg1) + 2 + t], got=o[3][1], expected=gt))
+                    break
+                if abs(gt - cfg["lambda_"]) <= tol * max(1.0, abs(gt)):
+                    ck.near_ties += 1
+                    continue
+                exp = (t + 1) >= cfg["min_num_instances"] and gt > cfg["lambda_"]
+                if o[0] != exp:
+                    ck.violation(dict(clause="verdict", detector=det.name, after_reset=True), dict(what="after reset(): drift flag differs from (t >= min_num_instances counted from the reset and g_t > lambda)", detector=det.name, config=cfg, ops=ops[: len(seg1) + 2 + t], drift=o[0], g=gt, t_since_reset=t + 1))
+                    break
+            else:
+                cases.append((det, cfg, ops, None))
+                impl.append(out)
     models = run_models("C07", cases)
     from detectors import corr_compare
 
